@@ -273,18 +273,18 @@ Theorem jll_decode_alloc : forall bs, bytes bs ->
 Proof. intros bs Hb. apply (jll_decode_aloopP bs Hb). Qed.
 
 (* ---------- jpeg/lossless14sv1 ---------- *)
-Lemma sv1_comps_good : forall data k i w h ids, 0 <= i -> 6 + (i + Z.of_nat k) * 3 <= zlen data ->
+Lemma sv1_comps_good : forall c data k i w h ids, 0 <= i -> 6 + (i + Z.of_nat k) * 3 <= zlen data ->
   0 <= w <= 65535 -> 0 <= h <= 65535 -> zlen ids = i ->
-  good true (8 * (w * h) + 65536) (fun ids' => zlen ids' = i + Z.of_nat k) (sv1_comps data k i w h ids).
+  good true (8 * (w * h) + 65536) (fun ids' => zlen ids' = i + Z.of_nat k) (sv1_comps c data k i w h ids).
 Proof.
-  intros data k. induction k as [|k IH]; intros i w h ids Hi Hl Hw Hh Hids; cbn [sv1_comps].
+  intros c data k. induction k as [|k IH]; intros i w h ids Hi Hl Hw Hh Hids; cbn [sv1_comps].
   - apply good_ret. lia.
   - eapply good_bind; [apply good_idx; lia|]. intros id _.
     eapply good_bind; [apply good_idx; lia|]. intros hv _.
     assert (Hwh : 0 <= w * h <= 65535 * 65535)
       by (split; [apply Z.mul_nonneg_nonneg; lia | apply Z.mul_le_mono_nonneg; lia]).
     eapply good_bind; [apply good_alloc with (post := fun _ => True); [lia|rewrite maxAlloc_val; lia|lia|exact I]|]. intros _ _.
-    destruct (negb ((hv / 16 =? 1) && (hv mod 16 =? 1))); [apply good_err|].
+    destruct ((1 <? c) && negb ((hv / 16 =? 1) && (hv mod 16 =? 1))); [apply good_err|].
     eapply good_weaken; [apply IH; try lia| |].
     + unfold zlen in *. rewrite app_length. simpl. lia.
     + apply Z.le_refl.
